@@ -130,6 +130,44 @@ class Conc(ser.Concrete):
         return {s: sp.Rational(self.rng.randint(2, 9), self.rng.randint(10, 13)) for fam in (False, True) for s in self.syms[fam]}
 
 
+def numeric_equal(a, b, conc, npts=3, tol=1e-12):
+    """a == b at random rational points, evaluated with mpmath at 50 digits through lambdify (sympy.N can return 0 for
+    products containing sin(c)**2 + cos(c)**2 at high precision, so it is not used here)"""
+    import mpmath
+    syms = sorted((a.free_symbols | b.free_symbols), key=lambda s: s.name)
+    try:
+        fa = sp.lambdify(syms, a, "mpmath")
+        fb = sp.lambdify(syms, b, "mpmath")
+    except Exception as e:  # noqa
+        return ser.numeric_equal(a, b, conc, npts=npts)
+    worst = 0.0
+    old = mpmath.mp.dps
+    mpmath.mp.dps = 50
+    try:
+        for _ in range(npts):
+            pt = conc.point()
+            vals = []
+            for s in syms:
+                v = pt.get(s)
+                if v is None:
+                    v = pt.get(sp.Symbol(s.name, real=True), sp.Rational(1, 3))
+                vals.append(mpmath.mpf(int(v.p)) / mpmath.mpf(int(v.q)))
+            try:
+                va, vb = mpmath.mpmathify(fa(*vals)), mpmath.mpmathify(fb(*vals))
+            except Exception:  # noqa  (pole, domain error: try another point)
+                continue
+            if not (mpmath.isfinite(va) and mpmath.isfinite(vb)):
+                continue
+            d = abs(va - vb)
+            scale = max(mpmath.mpf(1), abs(va), abs(vb))
+            worst = max(worst, float(d / scale))
+            if d / scale > tol:
+                return False, {"point": {str(k): str(v) for k, v in pt.items()}, "lhs": mpmath.nstr(va, 30), "rhs": mpmath.nstr(vb, 30)}
+    finally:
+        mpmath.mp.dps = old
+    return True, {"worst_rel": worst}
+
+
 def classical(E, xs, kind, semi, first_row=False):
     """the classical Sobolev integrand of the explicit components E in the variables xs"""
     l2 = sum(e ** 2 for e in E)
@@ -189,7 +227,7 @@ def oracle(case, res, M):
         if ref is None:
             return {"ok": None}
         got = conc.sx(got_sx, fam)
-        ok, info = ser.numeric_equal(got, ref, conc)
+        ok, info = numeric_equal(got, ref, conc)
         return {"ok": bool(ok), "info": info}
 
     if "out" in res.get("phys", {}):
